@@ -1,7 +1,16 @@
 (* Preservation of AppInv by every step of a publisher and of the environment. *)
-Require Import V.Base.MachineInt V.Generated.GenConsts V.Model.LogBase V.Model.Descriptor V.Proofs.DescriptorProofs
-               V.Model.Sched V.Model.AppenderThreads V.Proofs.TailArith V.Proofs.FragArith V.Proofs.AppenderInv
-               V.Proofs.AppenderLemmas V.Proofs.AppenderFrame.
+Require Import V.Base.MachineInt.
+Require Import V.Generated.GenConsts.
+Require Import V.Model.LogBase.
+Require Import V.Model.Descriptor.
+Require Import V.Proofs.DescriptorProofs.
+Require Import V.Model.Sched.
+Require Import V.Model.AppenderThreads.
+Require Import V.Proofs.TailArith.
+Require Import V.Proofs.FragArith.
+Require Import V.Proofs.AppenderInv.
+Require Import V.Proofs.AppenderLemmas.
+Require Import V.Proofs.AppenderFrame.
 From Coq Require Import ZifyBool.
 Open Scope Z_scope.
 
